@@ -1195,6 +1195,10 @@ int gd_alter_lincom(DIRFILE* D, const char* field_code, int n_fields,
     if (E == NULL)
       GD_RETURN_ERROR(D);
 
+    if (E->field_type != GD_LINCOM_ENTRY)
+      GD_SET_RETURN_ERROR(D, GD_E_BAD_FIELD_TYPE, GD_E_FIELD_BAD, NULL, 0,
+          field_code);
+
     N.EN(lincom,n_fields) = E->EN(lincom,n_fields);
   }
 
@@ -1251,6 +1255,10 @@ int gd_alter_clincom(DIRFILE* D, const char* field_code, int n_fields,
 
     if (E == NULL)
       GD_RETURN_ERROR(D);
+
+    if (E->field_type != GD_LINCOM_ENTRY)
+      GD_SET_RETURN_ERROR(D, GD_E_BAD_FIELD_TYPE, GD_E_FIELD_BAD, NULL, 0,
+          field_code);
 
     N.EN(lincom,n_fields) = E->EN(lincom,n_fields);
   }
@@ -1575,6 +1583,10 @@ int gd_alter_polynom(DIRFILE* D, const char* field_code, int poly_ord,
     if (E == NULL)
       GD_RETURN_ERROR(D);
 
+    if (E->field_type != GD_POLYNOM_ENTRY)
+      GD_SET_RETURN_ERROR(D, GD_E_BAD_FIELD_TYPE, GD_E_FIELD_BAD, NULL, 0,
+          field_code);
+
     N.EN(polynom,poly_ord) = E->EN(polynom,poly_ord);
   }
   N.in_fields[0] = (char *)in_field;
@@ -1619,6 +1631,10 @@ int gd_alter_cpolynom(DIRFILE* D, const char* field_code, int poly_ord,
 
     if (E == NULL)
       GD_RETURN_ERROR(D);
+
+    if (E->field_type != GD_POLYNOM_ENTRY)
+      GD_SET_RETURN_ERROR(D, GD_E_BAD_FIELD_TYPE, GD_E_FIELD_BAD, NULL, 0,
+          field_code);
 
     N.EN(polynom,poly_ord) = E->EN(polynom,poly_ord);
   }
